@@ -148,6 +148,28 @@ def doc_shared(base, across=False):
     return d
 
 
+def doc_sharedn(base, variant=0):
+    """one page object that is a kid of two (variant 1: three) DIFFERENT /Pages nodes whose inherited attributes differ"""
+    d = Doc()
+    d.add(None)
+    d.add(None)
+    font = d.add(D(Type=N("Font"), BaseFont=N("Helv")))
+    n1, n2 = d.add(None), d.add(None)
+
+    def page(parent, mk):
+        cs = d.add(Stream({}, b"(%d) Tj" % mk))
+        return d.add(page_dict(parent, mk, cs, font, full=False))
+    pa, ps, pb = page(n1, base), page(n1, base + 1), page(n2, base + 2)
+    d.objects[n1.n] = D(Type=N("Pages"), Parent=Ref(2), Count=2, Kids=[pa, ps], Rotate=90, MediaBox=[0, 0, 50, 50])
+    d.objects[n2.n] = D(Type=N("Pages"), Parent=Ref(2), Count=2, Kids=[ps, pb], Rotate=270, CropBox=[1, 1, 9, 9])
+    kids = [n1, n2] + ([ps] if variant == 1 else [])
+    d.objects[2] = D(Type=N("Pages"), Count=4 + (1 if variant == 1 else 0), Kids=kids, MediaBox=[0, 0, 612, 792], Resources=D(Font=D(F1=font)))
+    d.objects[1] = D(Type=N("Catalog"), Pages=Ref(2))
+    d.trailer = {b"Root": Ref(1)}
+    add_extras(d, pa, n2)
+    return d
+
+
 def doc_direct(base):
     """direct page dictionaries inside /Kids"""
     d = doc_flat(2, base, annots=False)
@@ -211,6 +233,8 @@ FAMILIES = {
     "nested2": (lambda b: doc_nested(b, 2), True),
     "shared": (lambda b: doc_shared(b), True),
     "sharedx": (lambda b: doc_shared(b, True), True),
+    "sharedn": (lambda b: doc_sharedn(b), True),
+    "sharedn3": (lambda b: doc_sharedn(b, 1), True),
     "direct": (lambda b: doc_direct(b), True),
     "sloppy": (lambda b: doc_sloppy(b), True),
     "empty": (lambda b: doc_empty(), True),
@@ -280,8 +304,21 @@ def gen_ops(rng, length, hostile=False):
             else:
                 v = page_val(mkc[0])
             ops.append("rp,%d,%s,%s" % (d, obj(0.8) if not hostile else obj(0.5), hx(v)))
-        elif k < 0.79:
+        elif k < 0.77:
             ops.append("sw,%d,%s,%s" % (d, obj(0.85) if not hostile else obj(0.5), obj(0.6)))
+        elif k < 0.79:
+            # replaceObject with an indirect handle (invalid): stream of another object, the stream itself, dictionary, ...
+            r = rng.random()
+            sd = d if rng.random() < 0.85 else 1 - d
+            if r < 0.35:
+                ops.append("ri,%d,%s,%d,@s%d" % (d, obj(0.7), sd, rng.randrange(8)))
+            elif r < 0.5:
+                st = "@s%d" % rng.randrange(8)
+                ops.append("ri,%d,%s,%d,%s" % (d, st, sd, st))
+            elif r < 0.9:
+                ops.append("ri,%d,%s,%d,%s" % (d, obj(0.6), sd, obj(0.4)))
+            else:
+                ops.append("rr,%d,%s" % (d, obj(0.7)))
         elif k < 0.85:
             ops.append("uc,%d" % d)
         elif k < 0.89:
@@ -316,6 +353,9 @@ def small_alphabet(tier):
     a.append("cf,0,1,@o12")
     a.append("cf,1,0,@l1")
     a.append("rp,0,@l1,%s" % hx(page_val(902)))
+    a.append("ri,0,@l1,0,@s1")                  # page replaced by the contents stream of another page: invalid
+    a.append("ri,0,@s0,0,@s0")                  # the one indirect form the code admits: the stream itself
+    a.append("ri,0,@l0,0,@l2")                  # indirect dictionary
     a.append("sw,0,@l0,@l2")
     a.append("sw,0,@l1,@n0")
     a.append("uc,0")
@@ -340,6 +380,12 @@ CORPUS = [
     ("flat3", "flat3", "1w", ["av,0,0,%s" % hx("null")]),                            # F1: a null still is accepted
     ("flat3", "flat3", "1w", ["rm,0,1,@l1"]),                                        # F2 (fixed by 87382fd8): a foreign handle must not identify a local page by number
     ("flat3", "flat3", "1w", ["aa,0,0,@l0,1,1,@l2"]),                                # F2
+    ("flat3", "flat3", "1w", ["ri,0,@l1,0,@s2", "uc,0"]),                              # seeded C13-3: indirect stream of another object must be rejected
+    ("flat3", "flat3", "1w", ["ri,0,@s0,0,@s0"]),                                    # F4: the stream itself: accepted, the stream is lost
+    ("flat3", "flat3", "1w", ["ri,0,4,1,4"]),                                        # F5: stream of the other document with the same number
+    ("flat3", "flat3", "1w", ["rr,0,@l1", "ri,0,@l0,0,@l2", "ri,0,@l0,0,@o16", "ri,0,@l0,1,@l0"]),
+    ("sharedn", "flat3", "2w", ["gp,0", "rm,0,0,@l1", "ap,1,0,@l1,0"]),               # seeded C13-4: a page under two different /Pages nodes
+    ("sharedn3", "sharedn", "1w", ["fp,0,@l0", "ap,0,0,@l4,1", "ap,1,0,@l1,0", "rm,0,0,@l2"]),
     ("flat3", "nested0", "2w", ["ap,0,1,@l4,0", "ap,0,1,@l4,1", "cf,0,1,@l0", "ap,0,1,@l0,0", "rm,0,0,@l0", "ap,0,0,@n0,1"]),
     ("nested1", "flat3", "0w", ["rm,0,0,@l3", "uc,0", "ap,0,0,@l0,1", "sc,0,@l2", "aa,0,0,@n0,0,0,@l1"]),
     ("shared", "sharedx", "1w", ["rm,0,0,@l0", "ap,1,0,@l0,1", "rm,1,1,@l3"]),
@@ -437,20 +483,21 @@ def tree_info(t):
         root, count, rest = t.split(":", 2)
     except ValueError:
         return None
-    ids, marks, par_ok, weird = [], [], True, False
+    ids, marks, rots, par_ok, weird = [], [], [], True, False
     for leaf in rest.split(","):
         if not leaf:
             continue
         parts = leaf.split("^")
-        if len(parts) != 4:
+        if len(parts) != 5:
             weird = True
             continue
-        i, par, actual, mk = parts
+        i, par, actual, mk, rot = parts
         ids.append(int(i) if i != "d" else 0)
         marks.append(int(mk) if mk != "?" else -1)
+        rots.append(int(rot))
         if par != actual:
             par_ok = False
-    return {"root": root, "count": count, "ids": ids, "marks": marks, "par_ok": par_ok, "weird": weird}
+    return {"root": root, "count": count, "ids": ids, "marks": marks, "rots": rots, "par_ok": par_ok, "weird": weird}
 
 
 def kinds(k):
@@ -550,6 +597,17 @@ def translate(op, L, K):
         if i in K[d] and K[d][i][1] in "PC":
             raise Stop("tree node replaced")
         return "n", None, "ok"
+    if o == "ri":
+        # replaceObject with an indirect handle: "The object handle passed in must be a direct object" (QPDF.hh)
+        d, i, sd, j = int(op[1]), int(op[2]), int(op[3]), int(op[4])
+        kind = K[sd][j][1] if j in K[sd] else "other"
+        if kind == "s":
+            kind = ("self-stream" if sd == d else "foreign-stream-same-number") if j == i else "other-stream"
+        else:
+            kind = {"n": "dictionary", "P": "dictionary", "C": "dictionary", "z": "null-object"}.get(kind, "other")
+        return "x", "C13:replace-indirect:" + kind, None
+    if o == "rr":
+        return "x", "C13:replace-indirect:reserved", None
     if o == "sw":
         d, i, j = int(op[1]), int(op[2]), int(op[3])
         if i == j:
@@ -623,8 +681,11 @@ def check_spec(chk, case, steps, t0, plan, spec_out, stats):
     sloppy_page = [False, False]      # a page object was replaced/swapped, or something without page attributes was inserted:
     #                                   the re-read may then warn about what the caller put there
     for d, fam in enumerate((case["fa"], case["fb"])):
-        if fam in ("sloppy", "direct", "shared", "sharedx"):
+        if fam in ("sloppy", "direct", "shared", "sharedx", "sharedn", "sharedn3"):
             sloppy_page[d] = True
+    # effective /Rotate of every position (own value or inherited): a second plain list, maintained here; None = unknown
+    rots = [list(t["rots"]) for t in t0]
+    cf_done = [False, False]
     for i, (sop, sig, expect) in enumerate(plan):
         if sop != "stop":
             opf = steps[i + 1].get("o", "").split(",")
@@ -644,6 +705,7 @@ def check_spec(chk, case, steps, t0, plan, spec_out, stats):
                 # a page copied with copyForeignObject keeps no inherited attributes; if it is added as a page later the
                 # memoised copy is used ("not going to use them as pages", QPDF.hh) and the re-read warns about it
                 sloppy_page[int(opf[1])] = True
+                cf_done[int(opf[1])] = True
         if sop == "stop":
             stats["spec_stopped"] += 1
             return
@@ -658,8 +720,32 @@ def check_spec(chk, case, steps, t0, plan, spec_out, stats):
         raised = r.startswith("E:")
         ts = [tree_info(x) for x in cur["t"].split("/")]
         why = None
+        # the rotation list follows the same list operation (only when the call did what the specification says)
+        opf = cur.get("o", "").split(",")
+        if must_raise == "0" and not raised:
+            f = sop.split(",")
+            if f[0] == "i":
+                r_new = None
+                if opf[0] in ("ap", "hp", "aa", "ha") and not (opf[1] != opf[2] and cf_done[int(opf[1])]):
+                    # (after a copyForeignObject into this document a page may come from the memo, without inherited attributes)
+                    pre_t = [tree_info(x) for x in steps[i]["t"].split("/")]
+                    sdoc, sid = int(opf[2]), int(opf[3])
+                    if pre_t[sdoc] is not None and sid in pre_t[sdoc]["ids"] and len(rots[sdoc]) == len(pre_t[sdoc]["ids"]):
+                        r_new = rots[sdoc][pre_t[sdoc]["ids"].index(sid)]
+                elif opf[0] == "an":
+                    r_new = 0
+                rots[int(f[1])].insert(int(f[2]), r_new)
+            elif f[0] == "r":
+                del rots[int(f[1])][int(f[2])]
+            elif f[0] == "s":
+                rots[int(f[1])][int(f[2])] = None
+            elif f[0] == "w":
+                dd, a, b = int(f[1]), int(f[2]), int(f[3])
+                rots[dd][a], rots[dd][b] = None, None     # own values move with the contents, inherited ones stay with the position
         if must_raise == "1" and not raised:
             why = "invalid call did not raise"
+        elif must_raise == "1" and opf[0] == "ri" and (cur.get("h"), cur.get("d")) != (steps[i].get("h"), steps[i].get("d")):
+            why = "rejected replaceObject call changed the documents"
         elif must_raise == "0" and raised and expect != "any":
             why = "valid call raised " + r
         elif expect and expect.startswith("ok:") and r != expect:
@@ -675,11 +761,20 @@ def check_spec(chk, case, steps, t0, plan, spec_out, stats):
                     why = "document %d: /Count %s, list length %d" % (d, t["count"], len(want[d]))
                 if why:
                     break
+            if not why:
+                for d in (0, 1):
+                    got = ts[d]["rots"]
+                    if len(got) == len(rots[d]) and any(a is not None and a != b for a, b in zip(rots[d], got)):
+                        why = "document %d: effective /Rotate of the pages %s, expected %s (inherited attributes are not those of the position)" % (d, got, rots[d])
+                        break
             if not why and "p" in cur:
                 for d, p in enumerate(cur["p"].split("/")):
                     pl = plist(p)
                     if pl is None or pl[1] != want[d]:
                         why = "document %d: getAllPages %s, list model %s" % (d, p, want[d])
+                        break
+                    if len(set(pl[0])) != len(pl[0]):
+                        why = "document %d: getAllPages lists the same page object at two positions: %s" % (d, p)
                         break
                     if pl[0] != ts[d]["ids"] and 0 not in ts[d]["ids"]:
                         # before the first repair the same object may be listed twice; then ids legitimately differ
@@ -716,6 +811,8 @@ def check_spec(chk, case, steps, t0, plan, spec_out, stats):
         pl = plist(fin["P"].split("/")[d])
         if pl is None or pl[1] != want[d]:
             why = "final getAllPages of document %d: %s, list model %s" % (d, fin["P"].split("/")[d], want[d])
+        elif len(set(pl[0])) != len(pl[0]):
+            why = "final getAllPages of document %d lists the same page object at two positions: %s" % (d, fin["P"].split("/")[d])
         elif fin["F"].split("/")[d] != "".join("%d," % k for k in range(len(want[d]))):
             why = "final findPage of document %d: %s" % (d, fin["F"].split("/")[d])
         else:
@@ -957,6 +1054,10 @@ def compare_model(case, isteps, msteps):
         for k in CMP_KEYS:
             if k in b and a.get(k) != b.get(k):
                 return i, False
+        if a.get("o", "").startswith("ri,") and a.get("r") == "ok":
+            # an accepted replaceObject(og, stream og) leaves an object that is a reference to itself (known finding F4); the
+            # model follows the call itself, not what later calls do with such an object
+            return None, False
     if len(isteps) != len(msteps):
         return min(len(isteps), len(msteps)) - 1, False
     return None, False
@@ -979,7 +1080,7 @@ def gen_cases(chk):
     # one more level, sampled
     n_s = 3000 if quick else 60000
     for _ in range(n_s):
-        fa, fb = rng.choice([("flat3", "nested0"), ("flat4r", "flat3"), ("nested1", "flat3"), ("shared", "flat3")])
+        fa, fb = rng.choice([("flat3", "nested0"), ("flat4r", "flat3"), ("nested1", "flat3"), ("shared", "flat3"), ("sharedn", "flat3"), ("sharedn3", "sharedx")])
         yield {"fa": fa, "fb": fb, "ba": 10, "bb": 20, "flags": rng.choice("012") + "w" * (rng.random() < 0.2) + "v" * (rng.random() < 0.2),
                "ops": [rng.choice(alpha) for _ in range(maxlen + 1 + rng.randrange(2))], "part": "exhaustive-sampled"}
     # random long histories over all families
